@@ -137,10 +137,13 @@ def run(chk):
          'aggregation scope decoration is applied to ordinary rules or not to combines',
          fi=s.fi)
   dc = FnView(repo, 'dialects.DecorateCombineRule')
+  # the store INTO the rule (subscript target) of a value that, read through
+  # locals, is the MagicalEntangle call; the append of the `x in [0]` conjunct
   ent = [n for n in dc.cfg.stmt_nodes() if isinstance(dc.cfg.stmt[n], ast.Assign) and
-         'MagicalEntangle' in dc.deep_text(dc.cfg.stmt[n].value)]
+         any(isinstance(t_, ast.Subscript) for t_ in dc.cfg.stmt[n].targets) and
+         'MagicalEntangle' in dc.deep_text(dc.expand(dc.cfg.stmt[n].value, 3))]
   inc = [n for n, c in dc.all_calls() if call_tail(c) == 'append' and
-         'inclusion' in dc.deep_text(c)]
+         'inclusion' in dc.deep_text(dc.expand(c, 3))]
   for n, r in dc.returns():
     chk.ob('C02-R2', bool(ent) and bool(inc) and dc.cfg.must_pass_before(n, ent) and
            dc.cfg.must_pass_before(n, inc), None,
